@@ -483,3 +483,29 @@ PROPS["C05"] = {
         ],
     },
 }
+
+PROPS["C06"] = {
+    "pkg": "c06", "level": "fault_enumeration",
+    "technique": "fault injection with rapid on the deterministic simulator: the equivocator is realised as two twins of the same party, both run by the real handler, that "
+                 "share their randomness tape up to the byte offset at which the chosen broadcast round is produced and use different tapes afterwards; each twin's traffic "
+                 "reaches only its audience (a generated partition of the honest parties), both twins receive all honest traffic; oracle = not both audiences contain a party "
+                 "that completes, and completed parties hold byte-identical non-final broadcast views",
+    "level_text": "Every twin is an individually valid participant (its messages come from the library itself), so the only thing that can stop the session is the echo-broadcast "
+                  "check. Protocols: toy protocols with all round patterns, FROST keygen/refresh/sign (both variants), CMP keygen, sign and presign; 2-4 honest parties, every "
+                  "equivocator position, every partition, generated schedules.",
+    "level_note": "The fork offset is measured in a recording run (round proxy hook); a run in which the twins already differ before the requested round is reported as "
+                  "inconclusive, never as a violation. Only rounds followed by a further round are forked (the statement's scope).",
+    "rule": "case = (protocol/pattern, honest parties, equivocator position, fork round, whether the twins' payloads differ, finishers per audience); non-trivial iff the twins' "
+            "round-r broadcasts really differ; distinct = distinct class keys",
+    "assumptions": ["library randomness flows through crypto/rand.Reader"],
+    "tiers": {
+        "quick": [
+            {"run": "^TestCheap$", "checks": 4000, "shards": 8},
+            {"run": "^TestCMP$", "checks": 8, "shards": 8, "timeout": 2400},
+        ],
+        "thorough": [
+            {"run": "^TestCheap$", "checks": 160000, "shards": 8},
+            {"run": "^TestCMP$", "checks": 240, "shards": 16, "timeout": 9000},
+        ],
+    },
+}
